@@ -502,14 +502,32 @@ def run(ctx, out):
                 values_vs_rebuilt(live, ops, len(ops) - 1, out2, stats)
             self.mech.finish(out2, lambda kk: S.hist_json(ops, kk), stats)
     S.enumerate_edits(ctx, out, "C03", _H, CFG, stats)
+
+    # `space.rename`: the rename family (struct_props.rename_family: nested spaces bearing an ancestor's name, renamed
+    # to a fresh / an ancestor's / a taken name, being bases, having bases; edits of everything around after each
+    # rename, rename back) - mechanism model edit by edit THROUGH the accepted renames (`renamespace`,
+    # Struct/MechRename.lean), derivation from scratch after every edit, values against a rebuilt model at the end
+    class _HRen(_H):
+        def after(self, live, ops, k, op, result, out2, stats):
+            self.results.append(result)
+            if op[0] != "evalall":
+                self.mech.after(live, k, op, result)
+            if op[0] in ("eval", "evalall", "set_value", "clear", "clear_all", "clear_at"):
+                return
+            # (the harness's own record of the declared bases is kept by path and does not follow renames)
+            check_state(live, ops, k, out2, stats, None)
+    fam_ren = S.rename_family()
+    S.run_family(out, stats, fam_ren, _HRen, CFG, "rename_family")
     api.run_c03(ctx, out, stats, run_history)
     run_arrivals(ctx, out, stats)
-    out.coverage.update({"evaluations": len(cases) + stats["enumerated_scenarios"] + stats["arrival_histories"], "programs": len(seen),
+    out.coverage.update({"evaluations": len(cases) + stats["enumerated_scenarios"] + stats["arrival_histories"] + len(fam_ren), "programs": len(seen) + len(fam_ren),
                          "distinct_nontrivial": nontrivial,
                          "rule": RULE + "; plus name-clash histories (struct_props.gen_clash: one alphabet of four names "
                                         "for cells, references, child spaces, model-level references and top-level spaces) "
                                         "compared edit by edit with the mechanism model"
                                         "; plus every motif program x applicable single edits (thorough: all) and pairs"
+                                        "; plus the rename family (struct_props.rename_family): space.rename of nested spaces "
+                                        "bearing an ancestor's name, compared with the mechanism model through every accepted rename"
                                         "; plus the arrival family: ordered-base DAGs on 3-4 spaces (all) and 5 spaces (an "
                                         "intermediate space put into one edge) x cells / references x the member defined in two "
                                         "spaces in both orders at every moment of the creation of the spaces, and in every space in "
